@@ -343,3 +343,9 @@ def owner_of(body, r):
 def raise_missing(k):
     from ..facts import AnchorMissing
     raise AnchorMissing('function %s not found' % k)
+
+
+@rule('C02', 'witness-private', tier='thorough')
+def witness_private(ctx):
+    from .. import witness
+    witness.check(ctx, ['UserKeyRepresentationIsPrivate'])
